@@ -149,24 +149,39 @@ def h_qbuild(c, ipv6, metadata):
 h_qbuild.must_cover = ["returned", "step.skipped", "step.extended", "step.flushed"]
 
 
+def _varint(v):
+    return bytes([v]) if v < 64 else (0x4000 | v).to_bytes(2, "big")
+
+
 def h_qbuild_native(c, ipv6, metadata):
-    """native evaluation: reference grouping (maximal runs of kept frames with equal timestamp) vs the real build"""
-    n = 1 + c.int("n_frames", 1, None) % 7
+    """native evaluation: reference grouping (maximal runs of kept frames with equal timestamp) vs the real build.  The frames are
+    built by the REAL frame constructors from encoded payloads (so they carry every attribute real frames carry: offsets, stream
+    ids, lengths), several frames share one source packet, several packets share one datagram (timestamp)"""
+    QF = "tlexport.quic.quic_frame."
     frames = []
-    for i in range(n):
-        t = [0x06, 0x08, 0x0b, 0x0f, 0xfe, 0x1c][c.int("t%d" % i, 0, 5)]
-        ts = float(c.int("ts%d" % i, 0, 3))
-        srv = c.bool("srv%d" % i)
-        data = bytes([i]) * (c.int("len%d" % i, 0, 5))
-        frames.append(make_frame(c, t, data, source_packet(c, t, ts, srv, bytes([c.int("pn%d" % i, 0, 2)]))))
-    # frames of one input datagram share its timestamp AND its direction
-    for i in range(1, n):
-        if frames[i].src_packet.ts == frames[i - 1].src_packet.ts:
-            frames[i].src_packet.isserver = frames[i - 1].src_packet.isserver
-    byts = {}
-    for f in frames:
-        byts.setdefault(f.src_packet.ts, f.src_packet.isserver)
-        f.src_packet.isserver = byts[f.src_packet.ts]
+    n_dgrams = 1 + c.int("n_datagrams", 0, 3)
+    i = 0
+    for d in range(n_dgrams):
+        ts = float(d + 1) if c.int("ts_repeat%d" % d, 0, 3) else float(max(d, 1))      # mostly distinct timestamps, sometimes equal neighbours
+        srv = c.bool("srv%d" % d)
+        for p in range(1 + c.int("n_packets%d" % d, 0, 1)):
+            kind = [0x06, 0x0e, 0x0e, 0xfe][c.int("kind%d_%d" % (d, p), 0, 3)]
+            sp = source_packet(c, kind, ts, srv, bytes([c.int("pn%d" % i, 0, 2)]))
+            for f in range(1 + c.int("n_frames%d_%d" % (d, p), 0, 2)):
+                i += 1
+                data = bytes([0x41 + i % 26]) * c.int("len%d" % i, 0, 5)
+                off = c.int("off%d" % i, 0, 300)
+                if kind == 0xfe:
+                    fr = make_frame(c, 0xfe, data, sp)
+                elif kind == 0x06:
+                    r = c.new(QF + "CryptoFrame", b"\x06" + _varint(off) + _varint(len(data)) + data, sp)
+                    assert r.exc is None, r
+                    fr = r.value
+                else:
+                    r = c.new(QF + "StreamFrame", b"\x0e" + _varint(4 * (i % 3)) + _varint(off) + _varint(len(data)) + data, sp)
+                    assert r.exc is None, r
+                    fr = r.value
+                frames.append(fr)
     obj, b = make_qbuilder(c, ipv6, frames)
     out = c.method(obj, "build", metadata)
     c.ensure("no_raise", out.exc is None, kind="raises")
